@@ -156,8 +156,36 @@ def protocols():
                          "@next": fn0(If([Cmp(["<"], [Dot(Id("self"), "c"), Int(2)])],
                                          [Block([DOpAsg(Id("self"), "c", "+", Int(1))])], Block([Null()])))}, {"c": Int(0)})),
              Core("print", [MCall(Id("a"), "to_tuple", [])])],
+            # @iterator "should return an iterable value that will then be used for iterator operations": a list, a map, a range
+            [Asg("a", O({"@iterator": fn0(say("iterator", List([Int(8), Int(9)])))})),
+             For(["v"], Id("a"), Block([Core("print", [Id("v")])]))],
+            [Asg("a", O({"@iterator": fn0(say("iterator", Map(["k", "l"], [Int(1), Int(2)])))})),
+             For(["v"], Id("a"), Block([Core("print", [Id("v")])]))],
+            [Asg("a", O({"@iterator": fn0(say("iterator", Range(Int(3), Int(5))))})),
+             For(["v"], Id("a"), Block([Core("print", [Id("v")])])), Core("print", [MCall(Id("a"), "to_list", [])])],
+            [Asg("a", O({"@iterator": fn0(say("iterator", List([Int(8), Int(9)])))})),
+             Core("print", [MCall(Id("a"), "to_tuple", [])])],
+            # unpacking works with any iterable value: @iterator alone, @next asked once per target
+            [Asg("a", O({"@iterator": fn0(say("iterator", Tuple([Int(8), Int(9), Int(10)])))})),
+             MAsg(["p", "q"], Id("a")), Core("print", [Tuple([Id("p"), Id("q")])])],
+            [Asg("a", O({"@iterator": fn0(say("iterator", List([Int(8)])))})),
+             MAsg(["p", "q", "r"], Id("a")), Core("print", [Tuple([Id("p"), Id("q"), Id("r")])])],
+            [Asg("a", O({"@next": Fn([], Block([Core("print", [Str("next")]),
+                                                If([Cmp(["<"], [Dot(Id("self"), "c"), Int(2)])],
+                                                   [Block([DOpAsg(Id("self"), "c", "+", Int(1))])], Block([Null()]))]))}, {"c": Int(0)})),
+             MAsg(["p", "q", "r"], Id("a")), Core("print", [Tuple([Id("p"), Id("q"), Id("r")])]), Core("print", [Dot(Id("a"), "c")])],
+            [Asg("a", O({"@next": Fn([], Block([Core("print", [Str("next")]), DOpAsg(Id("self"), "c", "+", Int(1))]))}, {"c": Int(0)})),
+             MAsg(["p", "q"], Id("a")), MAsg(["r", "s"], Id("a")), Core("print", [Tuple([Id("p"), Id("q"), Id("r"), Id("s")])])],
         ]
         for c in cases:
+            # a shared metamap with a block-bodied function is written as its own statement first (mm = ...; a = {..}.with_meta mm)
+            for idx, st in enumerate(c):
+                if (st["k"] == "asg" and st["e"]["k"] == "mcall" and st["e"]["m"] == "with_meta" and st["e"]["args"][0]["k"] == "map"
+                        and any(v["k"] == "fn" and len(v["body"].get("xs", [])) > 1 for v in st["e"]["args"][0]["mvs"])):
+                    mm = st["e"]["args"][0]
+                    st["e"]["args"][0] = Id("mm")
+                    c.insert(idx, Asg("mm", mm))
+                    break
             reset_ids()
             yield Block(prelude() + [wrap(c), Str("end")])
     # access chain: own data -> @meta -> @base chain (depth <= 2)
